@@ -34,6 +34,15 @@ import (
 
 func produce(tok, pl []byte) []byte {
 	h := sha256.Sum256(append(append([]byte{0x03}, tok...), pl...))
+	if len(pl) > 0 && pl[0] == 'B' {
+		// a response of 2-3.5 KiB in ONE message (no block-wise): larger than every internal buffer threshold
+		n := 2100 + int(h[0])*6
+		out := make([]byte, 0, n+32)
+		for len(out) < n {
+			out = append(out, h[:]...)
+		}
+		return out[:n]
+	}
 	return h[:20]
 }
 
@@ -94,7 +103,20 @@ func newEnv(kind string, blockwise bool, queue int, slowNotify ...bool) *env {
 			_ = h
 		}})
 		e.cc = cc
-		e.inject = func(m ref.Msg) { _ = cc.Process(nil, ref.EncodeUDP(m)) }
+		// like a socket reader: ONE receive buffer per connection, overwritten by the next datagram as soon as Process
+		// has returned - whatever the connection keeps of a datagram, it has to keep in memory of its own
+		var rxMu sync.Mutex
+		rx := make([]byte, 1<<16)
+		e.inject = func(m ref.Msg) {
+			d := ref.EncodeUDP(m)
+			rxMu.Lock()
+			n := copy(rx, d)
+			_ = cc.Process(nil, rx[:n])
+			for i := 0; i < n; i++ {
+				rx[i] = 0xA5
+			}
+			rxMu.Unlock()
+		}
 		e.sent = func() []ref.Msg {
 			var out []ref.Msg
 			for _, d := range s.Log() {
@@ -134,6 +156,8 @@ type ccase struct {
 	// Hold: callers keep the response for a moment, verify it again and only then release it, while the receive path is
 	// slowed down after the hand-over (udp)
 	Hold bool `json:"callers_hold_and_recheck,omitempty"`
+	// Big: every response is a single message of 2-3.5 KiB
+	Big bool `json:"responses_of_2_to_3_KiB_in_one_message,omitempty"`
 }
 
 // peer answers requests according to the policy; it keeps the production table.
@@ -315,6 +339,9 @@ func runCase(rec *vr.Rec, c ccase, rnd *rand.Rand) {
 			ctx, cancel := context.WithTimeout(context.Background(), 30*time.Second)
 			defer cancel()
 			pl := []byte(fmt.Sprintf("req-%d", i))
+			if c.Big {
+				pl = []byte(fmt.Sprintf("Breq-%d", i))
+			}
 			req := e.cc.AcquireMessage(ctx)
 			tok := toks[i]
 			if tok == nil {
@@ -693,6 +720,7 @@ func TestRun(t *testing.T) {
 			Tokens:  "library",
 			Policy:  fmt.Sprintf("hold-%d", i),
 			Hold:    true,
+			Big:     i%2 == 1,
 		})
 	}
 	var wg sync.WaitGroup
